@@ -32,7 +32,7 @@ Proof.
 Qed.
 
 Lemma b0_nonneg : nonneg (bal b0).
-Proof. intro a. do 10 (destruct a as [|a]; [vm_compute; congruence|]). vm_compute. congruence. Qed.
+Proof. intro a. do 12 (destruct a as [|a]; [vm_compute; congruence|]). vm_compute. congruence. Qed.
 
 Example txs_wf : Forall (tx_wf e0) [t_odd; t_low; t_fwd; t_sds; t_rev].
 Proof. repeat constructor; simpl; lia. Qed.
@@ -40,11 +40,11 @@ Proof. repeat constructor; simpl; lia. Qed.
 Definition show (r : bank * outcome) : outcome * list Z * Z := (snd r, map (bal (fst r)) universe, supply (fst r)).
 
 Example deliver_nonvacuous :
-  show (deliver e0 b0 t_odd) = (Ok,     [999999968499; 31507; 1; 50; 0; 0; 100; 0; 0; 0], 5000000000000) /\
-  show (deliver e0 b0 t_low) = (MsgErr, [999999980000; 20007; 0; 50; 0; 0; 100; 0; 0; 0], 5000000000000) /\
-  show (deliver e0 b0 t_fwd) = (Ok,     [999999968901; 31104; 0; 51; 0; 0; 100; 0; 0; 0], 4999999999999) /\
-  show (deliver e0 b0 t_sds) = (Ok,     [999999965218; 34788; 0; 0; 0; 0; 100; 0; 0; 0],  4999999999949) /\
-  show (deliver e0 b0 t_rev) = (VmErr,  [999999935397; 64610; 0; 50; 0; 0; 100; 0; 0; 0], 5000000000000).
+  show (deliver e0 b0 t_odd) = (Ok,     [999999968499; 31507; 1; 50; 0; 0; 100; 0; 0; 0; 0; 0], 5000000000000) /\
+  show (deliver e0 b0 t_low) = (MsgErr, [999999980000; 20007; 0; 50; 0; 0; 100; 0; 0; 0; 0; 0], 5000000000000) /\
+  show (deliver e0 b0 t_fwd) = (Ok,     [999999968901; 31104; 0; 51; 0; 0; 100; 0; 0; 0; 0; 0], 4999999999999) /\
+  show (deliver e0 b0 t_sds) = (Ok,     [999999965218; 34788; 0; 0; 0; 0; 100; 0; 0; 0; 0; 0],  4999999999949) /\
+  show (deliver e0 b0 t_rev) = (VmErr,  [999999935397; 64610; 0; 50; 0; 0; 100; 0; 0; 0; 0; 0], 5000000000000).
 Proof. vm_compute. repeat split; reflexivity. Qed.
 
 Example history_nonvacuous :
@@ -90,8 +90,8 @@ Definition t_kill_pay := mktx (legacy 1000000000000) 2021000 0 9%nat
   (EvmOk [OSuicide 3 4; OTransfer 9 3 3000000000000; OSuicide 3 3]) 60000.
 
 Example repeated_selfdestruct_nonvacuous :
-  show (deliver e0 b1 t_kills)    = (Ok, [999999919488; 80519; 0; 0; 53; 0; 100; 0; 0; 997], 5000000000000) /\
-  show (deliver e0 b1 t_kill_pay) = (Ok, [999999940000; 60007; 0; 0; 50; 0; 100; 0; 0; 997], 4999999999997) /\
+  show (deliver e0 b1 t_kills)    = (Ok, [999999919488; 80519; 0; 0; 53; 0; 100; 0; 0; 997; 0; 0], 5000000000000) /\
+  show (deliver e0 b1 t_kill_pay) = (Ok, [999999940000; 60007; 0; 0; 50; 0; 100; 0; 0; 997; 0; 0], 4999999999997) /\
   whole_unibi t_kills = true /\ whole_unibi t_kill_pay = false.
 Proof. vm_compute. repeat split; reflexivity. Qed.
 
